@@ -131,11 +131,12 @@ def translate(ctx):
         fn = next(n for n in ast.parse(src).body if isinstance(n, ast.FunctionDef) and n.name == "determine_type_mf")
         for n in ast.walk(fn):
             if isinstance(n, ast.Assign) and len(n.targets) == 1 and isinstance(n.targets[0], ast.Name) and n.targets[0].id == "base_types":
-                if isinstance(n.value, ast.List) and all(isinstance(e, ast.Constant) and isinstance(e.value, str) for e in n.value.elts):
+                if isinstance(n.value, (ast.List, ast.Tuple, ast.Set)) and all(isinstance(e, ast.Constant) and isinstance(e.value, str) for e in n.value.elts):
                     base_types = [e.value for e in n.value.elts]
-        last = fn.body[-1]
-        if isinstance(last, ast.Return) and isinstance(last.value, ast.Call) and ast.unparse(last.value.func).endswith("MethodInvokeInfo"):
-            a = last.value.args
+        # the fallback: the (only) `return …MethodInvokeInfo(…terminal("<type>"[, p_depth]), <deref>)` of the function
+        rets = [n for n in ast.walk(fn) if isinstance(n, ast.Return) and isinstance(n.value, ast.Call) and ast.unparse(n.value.func).endswith("MethodInvokeInfo")]
+        if len(rets) == 1:
+            a = rets[0].value.args
             if len(a) == 2 and isinstance(a[0], ast.Call) and ast.unparse(a[0].func).endswith("terminal") and isinstance(a[1], ast.Constant):
                 t = a[0]
                 if t.args and isinstance(t.args[0], ast.Constant) and isinstance(t.args[0].value, str):
@@ -150,11 +151,11 @@ def translate(ctx):
                         fb_depth = None
                 if isinstance(a[1].value, int):
                     fb_deref = a[1].value
-        # the statement just before the final return must be the logging call
-        prev = fn.body[-2]
-        if isinstance(prev, ast.Expr) and isinstance(prev.value, ast.Call) and isinstance(prev.value.func, ast.Attribute):
-            if "getLogger" in ast.unparse(prev.value.func.value):
-                fb_log = prev.value.func.attr
+        # the logging call of the function: `…getLogger(…).<level>(…)`
+        logs = [n.func.attr for n in ast.walk(fn) if isinstance(n, ast.Call) and isinstance(n.func, ast.Attribute)
+                and isinstance(n.func.value, ast.Call) and ast.unparse(n.func.value.func).endswith("getLogger")]
+        if len(logs) == 1:
+            fb_log = logs[0]
     except Exception as e:  # unreadable source: every constant becomes unrecognised
         ctx.notes.append(f"translator: determine_type_mf not recognised ({type(e).__name__}: {e})")
 
